@@ -19,6 +19,8 @@ struct Ctx<'a> {
     counter: [u64; 4],
     /// `FP` lines still to emit per mode, and one in how many cases gets one
     fp_budget: [usize; 4],
+    /// separate budget for the large random shapes (generated last)
+    fp_budget_large: [usize; 4],
     fp_every: u64,
 }
 
@@ -62,9 +64,11 @@ impl Ctx<'_> {
         corr_line(run, &id, &c, d, &o);
         // builder inputs -> pp (Model/FullPerf.lean): hand-picked cases, every `fp_every`-th enumerated one,
         // every large random one, within the per-mode budget
-        let sampled = tag == "regression" || tag == "witness" || tag == "random-large" || self.counter[mode] % self.fp_every == 0;
-        if sampled && self.fp_budget[mode] > 0 {
-            self.fp_budget[mode] -= 1;
+        let large = tag == "random-large";
+        let sampled = tag == "regression" || tag == "witness" || large || self.counter[mode] % self.fp_every == 0;
+        let budget = if large { &mut self.fp_budget_large[mode] } else { &mut self.fp_budget[mode] };
+        if sampled && *budget > 0 {
+            *budget -= 1;
             fp_line(run, &id, &c, d, &o);
         }
         check_c12(run, &id, &c, d, &o);
@@ -170,8 +174,8 @@ fn fill_aux(rng: &mut Rng, mode: u8, attrs: &[u32; 4], fields: &mut [Option<u32>
 
 pub fn run(tier: &str, seed: u64, only: Option<&str>) -> Run {
     let thorough = tier == "thorough";
-    let fp = if thorough { 12_000 } else { 2_500 };
-    let mut cx = Ctx { run: Run::default(), only, counter: [0; 4], fp_budget: [fp; 4], fp_every: if thorough { 23 } else { 17 } };
+    let fp = if thorough { 10_000 } else { 2_000 };
+    let mut cx = Ctx { run: Run::default(), only, counter: [0; 4], fp_budget: [fp; 4], fp_budget_large: [fp / 2; 4], fp_every: if thorough { 23 } else { 17 } };
     let mut rng = Rng::new(seed ^ 0xC12);
 
     // 0. the two defects fixed earlier (must stay fixed) and hand-picked corners
